@@ -754,4 +754,40 @@ Proof.
   intro NS. unfold init_world. eapply RJ_trans; [apply RJ_rm_call|]. apply RJ_fold. intros. apply RJ_init_dev, NS.
 Qed.
 
+(** a device constructed between two events: it is empty when its registration initialises it, so this initialisation is a strict step *)
+Lemma RJ_init_dev_empty fuel w d :
+  d_kind (getd w d) <> KSource -> d_part (getd w d) = None -> d_out (getd w d) = None -> RJ w (init_dev fuel nw w d).
+Proof.
+  intros NSRC P O. unfold init_dev. set (x := getd w d) in *. destruct (is_holder (d_kind x)); [|Jt].
+  set (w1 := updd w d (fun y => dev_set_wait nw true true y)).
+  assert (R1 : RJ w w1).
+  { apply (RJ_dev w d (fun y => d_part y = None /\ d_out y = None)); [|split; assumption]. intros y [PY OY]. unfold dev_set_wait, busy. cbn.
+    destruct (d_wait_since y); cbn; (split; [reflexivity|split; [intros _; reflexivity|intros _ _ _ _; cbn; auto]]). }
+  destruct (d_kind x) eqn:K; try exact R1; [|congruence].
+  eapply RJ_trans; [exact R1|]. apply (RJ_dev w1 d (fun _ => True)); [|exact I]. intros y _. split; [reflexivity|split; [intros _; reflexivity|]].
+  intros _ H. exact H.
+Qed.
+
+Lemma RJ_late_create fuel w d ups : RJ w (late_create fuel nw w d ups).
+Proof.
+  unfold late_create. set (x := getd w d).
+  match goal with |- RJ _ (if ?c then _ else _) => destruct c eqn:GD end; [Jt|].
+  apply orb_false_iff in GD. destruct GD as [GD _]. apply orb_false_iff in GD. destruct GD as [GD AM].
+  apply orb_false_iff in GD. destruct GD as [GD LK]. apply orb_false_iff in GD. destruct GD as [_ PR].
+  apply negb_false_iff in PR. apply negb_false_iff in AM. apply negb_false_iff in LK.
+  assert (PF : d_part x = None /\ d_out x = None).
+  { unfold pristine in PR. repeat (apply andb_true_iff in PR; destruct PR as [PR ?]).
+    destruct (d_part x); [discriminate|]. destruct (d_out x); [discriminate|]. auto. }
+  set (w0 := w <| f_next_id := f_next_id w + 1 |>).
+  apply (RJ_trans w w0); [apply RJ_same; reflexivity|].
+  set (w1 := updd w0 d t_live).
+  apply (RJ_trans w0 w1); [apply (RJ_dev w0 d (fun _ => True)); [|exact I]|].
+  { intros y _. split; [reflexivity|split; [intros _; reflexivity|intros _ H; exact H]]. }
+  assert (X1 : getd w1 d = t_live x) by (unfold w1; rewrite getd_updd_same; change (amem d (f_devs w0)) with (amem d (f_devs w)); rewrite AM; reflexivity).
+  eapply RJ_trans; [apply RJ_init_dev_empty|apply RJ_rewire].
+  - rewrite X1. cbn. intro E. rewrite E in LK. discriminate.
+  - rewrite X1. cbn. apply PF.
+  - rewrite X1. cbn. apply PF.
+Qed.
+
 End Timer.
